@@ -39,6 +39,8 @@ def main():
             r = sh(f"PYTHONPATH={wt} /venv/bin/python {demo}", cwd=wt, timeout=600)
             out["demo_clean_exit"] = r.returncode
         a = sh(f"git -C {wt} apply {os.path.join(d, 'patch.diff')}")
+        if a.returncode != 0:  # /repo has moved on since the change was written: fall back to a three-way merge
+            a = sh(f"git -C {wt} apply --3way {os.path.join(d, 'patch.diff')}")
         out["applied"] = a.returncode == 0
         if a.returncode != 0:
             out["apply_error"] = a.stderr[-500:]
